@@ -4,13 +4,16 @@
 cd /repo || exit 2
 git diff --quiet || { echo "/repo has local changes"; exit 2; }
 rc=0
+touched=""
 for d in /verif/seeded/*/; do
   p=$(python3 -c "import json;print(json.load(open('$d/meta.json'))['property'])")
   git apply "$d/patch.diff" || { echo "$(basename $d): patch does not apply"; rc=1; continue; }
   out=$(cd /verif && ./check $p 2>&1); code=$?
+  case " $touched " in *" $p "*) ;; *) touched="$touched $p";; esac
   git -C /repo checkout -- .
   n=$(echo "$out" | grep -c "^VIOLATION property=$p")
   if [ $code -eq 1 ] && [ $n -ge 1 ]; then echo "$(basename $d): DETECTED by ./check $p ($n violation lines: $(echo "$out" | grep -A1 '^VIOLATION' | grep -v VIOLATION | grep -v '^--' | awk '{print $1}' | sort -u | tr '\n' ' '))"; else echo "$(basename $d): MISSED by ./check $p (exit $code)"; rc=1; fi
 done
-cd /verif && ./check C01 > /dev/null   # restore evidence/facts for the unchanged tree
+# restore evidence/facts for the unchanged tree
+for p in $touched; do (cd /verif && ./check $p > /dev/null); done
 exit $rc
